@@ -26,12 +26,12 @@ META = dict(
     functions=["fdtd.fdtd.custom_fdtd_forward", "fdtd.container.ArrayContainer.reset", "fdtd.wrapper.run_fdtd", "fdtd.forward.forward", "update_detector_states"],
     assumptions=["reals for floats (x*0 = 0: a NaN/inf left in a reused container is outside the claim)", "materials concrete (placed scene); quantified: initial fields, PML auxiliary fields, old detector-state contents"],
     outside="T beyond the bound; float non-finite leftovers",
-    bounds=dict(quick=dict(T=4), thorough=dict(T=7)),
+    bounds=dict(quick=dict(T=4), thorough=dict(T=8)),
 )
 
 
 def cases(tier, seed):
-    T = 4 if tier == "quick" else 7
+    T = 4 if tier == "quick" else 8
     out = []
     for nm, shape, pml in (("pml", (3, 3, 6), True), ("periodic", (3, 2, 4), False)):
         splits = list(range(1, T)) if (tier != "quick" or nm == "pml") else [2]
